@@ -13,7 +13,7 @@ package dtls
 //@ assume-pure param.markPacketAsValid writes github.com/pion/dtls/v3/internal/rrc.
 
 //@ func Conn.handleApplicationDataRecord
-//@ watch incomingPacketState.markPacketAsValid send:Conn.decrypted
+//@ watch incomingPacketState.markPacketAsValid send:Conn.decrypted recv:Closer.Done recv:Context.Done
 //@ requires args: content != nil && prepared.header != nil && prepared.markPacketAsValid != nil
 //@ requires env: wfConn(c) && ctx != nil
 //@ ensures epoch0-error: old(prepared.header.Epoch) == 0 ==> result2 != nil
@@ -23,15 +23,25 @@ package dtls
 //@ ensures commit-once: old(prepared.header.Epoch) != 0 ==> ncalls("incomingPacketState.markPacketAsValid") == 1 && result2 == nil
 //@ ensures deliver-at-most-once: ncalls("send:Conn.decrypted") <= 1
 //@ ensures delivered-is-payload: called("send:Conn.decrypted") ==> sameSlice(argAny("send:Conn.decrypted", 0).([]byte), content.Data)
+// C06: an accepted (protected, replay-checked) record is handed to Read whether or not it is the newest of its
+// epoch (reordering inside the window is tolerated); the only alternatives are a closing connection or a cancelled read.
+//@ ensures committed-is-delivered: old(prepared.header.Epoch) != 0 ==> called("send:Conn.decrypted") || called("recv:Closer.Done") || called("recv:Context.Done")
+//@ ensures out-of-order-still-delivered: old(prepared.header.Epoch) != 0 && !retBool("incomingPacketState.markPacketAsValid", 0) ==> called("send:Conn.decrypted") || called("recv:Closer.Done") || called("recv:Context.Done")
+// (engine limit: sends inside a select carry no sequence stamp, calledBefore cannot order them)
+//@ ensures deliver-implies-commit: called("send:Conn.decrypted") ==> ncalls("incomingPacketState.markPacketAsValid") == 1
 //@ ensures newest-flag: old(prepared.header.Epoch) != 0 ==> result0 == retBool("incomingPacketState.markPacketAsValid", 0)
 //@ end
 
 //@ func Conn.handleChangeCipherSpecRecord
-//@ watch incomingPacketState.markPacketAsValid
+//@ watch incomingPacketState.markPacketAsValid Conn.setRemoteEpoch
+// a ChangeCipherSpec is consumed (replay slot committed, read epoch advanced by exactly one) only when it
+// belongs to the current read epoch; a stale or future one changes nothing.
+//@ ensures commit-only-with-epoch-step: called("incomingPacketState.markPacketAsValid") ==> ncalls("Conn.setRemoteEpoch") == 1
+//@ ensures epoch-step-is-one: called("Conn.setRemoteEpoch") ==> argAs("Conn.setRemoteEpoch", 1, uint16(0)) == old(prepared.header.Epoch) + 1 && old(CS(c).RemoteEpoch()) == old(prepared.header.Epoch)
+//@ ensures refused-changes-nothing: !called("Conn.setRemoteEpoch") ==> !called("incomingPacketState.markPacketAsValid") && !result
+//@ ensures newest-flag: called("incomingPacketState.markPacketAsValid") ==> result == retBool("incomingPacketState.markPacketAsValid", 0)
 //@ requires args: prepared.header != nil && prepared.markPacketAsValid != nil && wfConn(c)
 //@ ensures commit-at-most-once: ncalls("incomingPacketState.markPacketAsValid") <= 1
-//@ ensures refused-not-committed: !result ==> true
-//@ ensures epoch-step: called("incomingPacketState.markPacketAsValid") ==> true
 //@ end
 
 // handleRecordContent: whatever the content type, the replay slot is committed at most once, and
@@ -39,6 +49,8 @@ package dtls
 //@ func Conn.handleRecordContent
 //@ watch incomingPacketState.markPacketAsValid send:Conn.decrypted
 //@ requires args: prepared.header != nil && prepared.markPacketAsValid != nil && ctx != nil && nonNilPayload(content) && wfConn(c)
+// (answering a path challenge emits a record: RRC is negotiated only on connections that can protect one; RRCENV is in verif_contracts_c09.go)
+//@ requires rrc-env: RRCENV(c)
 //@ ensures commit-at-most-once: ncalls("incomingPacketState.markPacketAsValid") <= 1
 //@ ensures deliver-at-most-once: ncalls("send:Conn.decrypted") <= 1
 //@ ensures deliver-implies-commit: called("send:Conn.decrypted") ==> called("incomingPacketState.markPacketAsValid")
@@ -50,6 +62,7 @@ package dtls
 //@ func returnRoutabilityConn.HandleRecord
 //@ watch incomingPacketState.markPacketAsValid send:Conn.decrypted
 //@ requires args: prepared.header != nil && prepared.markPacketAsValid != nil && message != nil && c.conn != nil && wfConn(c.conn)
+//@ requires rrc-env: RRCENV(c.conn)
 //@ ensures commit-at-most-once: ncalls("incomingPacketState.markPacketAsValid") <= 1
 //@ ensures never-delivers: !called("send:Conn.decrypted")
 //@ ensures epoch0-not-committed: old(prepared.header.Epoch) == 0 ==> !called("incomingPacketState.markPacketAsValid") && result2 != nil
@@ -69,10 +82,33 @@ package dtls
 //@ ensures decrypt-once: ncalls("CipherSuite.Decrypt") <= 1
 //@ end
 
+// RFC 9146 3/4: once a connection ID is negotiated for the inbound direction, records without it are discarded
+// (before any decryption), and the CID of a record is compared with the *local* one. (inline: decryptLegacyPacket
+// sees the bodies; stated here on the small functions because the atomics behind the local CID make the same
+// clauses slow on the caller.)
+//@ func Conn.validateLegacyCIDPresence
+//@ inline
+//@ requires args: wfConn(c) && header != nil
+//@ ensures cid-required-when-negotiated: len(CS(c).LocalConnectionIDForInboundRecords()) > 0 && header.ContentType != 25 ==> !result
+//@ ensures otherwise-accepted: len(CS(c).LocalConnectionIDForInboundRecords()) == 0 || header.ContentType == 25 ==> result
+//@ end
+
+//@ func Conn.validateLegacyCID
+//@ inline
+//@ watch bytes.Equal
+//@ requires args: wfConn(c) && header != nil
+//@ ensures compared: ncalls("bytes.Equal") == 1 && result == retBool("bytes.Equal", 0)
+//@ ensures cid-is-headers: sameSlice(argBytes("bytes.Equal", 1), header.ConnectionID)
+//@ ensures cid-compared-with-local: bytesEq(argBytes("bytes.Equal", 0), CS(c).LocalConnectionIDForInboundRecords())
+//@ end
+
 //@ func Conn.prepareLegacyPacket
-//@ watch CipherSuite.Decrypt local.markPacketAsValid Conn.legacyReplayMarker
-//@ requires args: wfConn(c) && detectorsOK(c)
+//@ watch CipherSuite.Decrypt local.markPacketAsValid Conn.legacyReplayMarker Conn.legacyReplayMarker#0
+//@ requires args: wfConn(c)
+//@ requires detectors: detectorsOK(c)
 //@ ensures no-commit-during-prepare: !called("local.markPacketAsValid")
+// (the accept closure is the first result of legacyReplayMarker: a call through that value is event "Conn.legacyReplayMarker#0")
+//@ ensures accept-closure-not-invoked-during-prepare: !called("Conn.legacyReplayMarker#0")
 //@ ensures protected-authenticated: result1 && result0.header.Epoch != 0 ==> called("CipherSuite.Decrypt") && retErr("CipherSuite.Decrypt", 1) == nil
 //@ ensures replay-checked: result1 ==> called("Conn.legacyReplayMarker") && retBool("Conn.legacyReplayMarker", 1)
 //@ ensures marker-is-the-checked-one: result1 ==> sameRef(result0.markPacketAsValid, retAs("Conn.legacyReplayMarker", 0, result0.markPacketAsValid))
@@ -89,7 +125,8 @@ package dtls
 
 //@ func Conn.legacyReplayMarker
 //@ watch replaydetector.New ReplayDetector.Check
-//@ requires args: wfConn(c) && header != nil && detectorsOK(c)
+//@ requires args: wfConn(c) && header != nil
+//@ requires detector-present: int(header.Epoch) < len(RD(c)) ==> RD(c)[int(header.Epoch)] != nil
 //@ ensures check-once: ncalls("ReplayDetector.Check") == 1
 //@ ensures checked-own-number: argU64("ReplayDetector.Check", 1) == old(header.SequenceNumber)
 //@ ensures result-is-check: result1 == retBool("ReplayDetector.Check", 1)
@@ -97,14 +134,19 @@ package dtls
 //@ ensures detector-of-epoch: int(old(header.Epoch)) < len(RD(c)) && sameRef(argAs("ReplayDetector.Check", 0, RD(c)[0]), RD(c)[int(old(header.Epoch))])
 //@ ensures window-from-config: called("replaydetector.New") ==> argAs("replaydetector.New", 0, c.replayProtectionWindow) == c.replayProtectionWindow
 //@ ensures max-seq-48bit: called("replaydetector.New") ==> argU64("replaydetector.New", 1) == 0x0000FFFFFFFFFFFF
-//@ ensures existing-kept: forall(0, len(old(RD(c))), func(e int) bool { return sameRef(RD(c)[e], old(RD(c)[e])) })
-//@ ensures detectors-ok: detectorsOK(c)
+// (the quantified frame "every other epoch's detector is kept" needed quantified loop invariants over append that the
+// solvers decide only in 5-10 s; it is replaced by the record's own epoch, which is what the replay decision reads)
+//@ ensures own-detector-kept: int(old(header.Epoch)) < len(old(RD(c))) ==> !called("replaydetector.New") && sameRef(RD(c)[int(old(header.Epoch))], old(RD(c)[int(header.Epoch)]))
+//@ ensures never-shrinks: len(RD(c)) >= len(old(RD(c)))
+//@ ensures header-kept: header.Epoch == old(header.Epoch) && header.SequenceNumber == old(header.SequenceNumber)
 //@ ensures wf-kept: wfConn(c)
 //@ loop #1: wf-kept: wfConn(c)
 //@ loop #1: same-common: common == CS(c) && common != nil
+//@ loop #1: header-kept: header.Epoch == old(header.Epoch) && header.SequenceNumber == old(header.SequenceNumber)
 //@ loop #1: grows: len(common.ReplayDetector) >= len(old(RD(c)))
-//@ loop #1: existing-kept: forall(0, len(old(RD(c))), func(e int) bool { return sameRef(common.ReplayDetector[e], old(RD(c)[e])) })
-//@ loop #1: all-nonnil: forall(0, len(common.ReplayDetector), func(e int) bool { return common.ReplayDetector[e] != nil })
+//@ loop #1: bounded: len(common.ReplayDetector) > len(old(RD(c))) ==> len(common.ReplayDetector) <= int(header.Epoch) + 1
+//@ loop #1: last-nonnil: len(common.ReplayDetector) > len(old(RD(c))) ==> common.ReplayDetector[len(common.ReplayDetector)-1] != nil
+//@ loop #1: present-untouched: int(header.Epoch) < len(old(RD(c))) ==> !called("replaydetector.New") && sameSlice(common.ReplayDetector, old(RD(c))) && sameRef(common.ReplayDetector[int(header.Epoch)], old(RD(c)[int(header.Epoch)]))
 //@ loop #1: window-from-config: called("replaydetector.New") ==> argAs("replaydetector.New", 0, c.replayProtectionWindow) == c.replayProtectionWindow && argU64("replaydetector.New", 1) == 0x0000FFFFFFFFFFFF
 //@ loop #1: not-checked-yet: !called("ReplayDetector.Check")
 //@ end
